@@ -1101,6 +1101,52 @@ struct EnumCtx {
         if (shard == 0) r.exhausted.push_back(std::string(tname<T>()) + ": triples of long operands of 15..8192 units (on and next to powers of two) differing in the last / first / middle / block-boundary unit, by case, by one unit of length, plus an equal copy - every form, pre-states, containers");
         return true;
     }
+    // the literal macros and literal operators (contents fixed at compile time): NUL and bytes >= 0x80 inside, every pair, every form
+    bool literal_table() {
+        using namespace ST::literals;
+        if (shard != 0) return true;
+        {
+            const ST::string L[] = {ST_LITERAL(""), ST_LITERAL("a"), ST_LITERAL("A"), ST_LITERAL("a\0b"), ST_LITERAL("a\0B"), ST_LITERAL("a\0"), ST_LITERAL("\xC3\xA9"), ST_LITERAL("\xC3\x89"),
+                                    "a\0b"_st, "Z\xFF"_st, u8"z\u00FF"_st, ST_LITERAL("0123456789abcdef"), "0123456789ABCDEF"_st, ST_LITERAL("0123456789abcdef\0")};
+            const int N = (int)(sizeof L / sizeof L[0]);
+            for (int i = 0; i < N; i++) for (int j = 0; j < N; j++) {
+                const Vec<char> x(L[i].c_str(), L[i].c_str() + L[i].size()), y(L[j].c_str(), L[j].c_str() + L[j].size());
+                if (!pair<char>(0, x, y, true, true)) return false;
+                Fail f;
+                const int want = ref::cmp(x.data(), x.size(), y.data(), y.size());
+                f.sign(L[i].compare(L[j]), want, "string::compare(string) on literal-made strings", "a", "b");
+                f.truth(L[i] == L[j], want == 0, "string == string on literal-made strings", "a", "b");
+                f.truth(L[i] < L[j], want < 0, "string < string on literal-made strings", "a", "b");
+                f.truth(L[i].compare_i(L[j]) == 0, ref::fold_equal(x.data(), x.size(), y.data(), y.size()), "string::compare_i == 0 on literal-made strings", "a", "b");
+                f.truth(want != 0 || ST::hash()(L[i]) == ST::hash()(L[j]), true, "hash equal for equal literal-made strings", "a", "b");
+                if (f.bad()) { Triple<char> t; t.v[0] = x; t.v[1] = y; t.v[2] = x; fail(f.why, render_triple(t)); return false; }
+            }
+        }
+        auto buffers = [&](auto &B, int type, const char *what) -> bool {
+            typedef typename std::remove_reference<decltype(B[0])>::type Buf; typedef typename Buf::value_type T;
+            const int N = 6;
+            for (int i = 0; i < N; i++) for (int j = 0; j < N; j++) {
+                const Vec<T> x(B[i].data(), B[i].data() + B[i].size()), y(B[j].data(), B[j].data() + B[j].size());
+                if (!pair<T>(type, x, y, false, true)) return false;
+                Fail f;
+                const int want = ref::cmp(x.data(), x.size(), y.data(), y.size());
+                f.sign(B[i].compare(B[j]), want, what, "a", "b");
+                f.truth(B[i] == B[j], want == 0, what, "a", "b");
+                f.truth(B[i] != B[j], want != 0, what, "a", "b");
+                f.truth(B[i] < B[j], want < 0, what, "a", "b");
+                if (f.bad()) { Triple<T> t; t.v[0] = x; t.v[1] = y; t.v[2] = x; fail(f.why, render_triple(t)); return false; }
+            }
+            return true;
+        };
+        const ST::char_buffer C[] = {ST_CHAR_LITERAL(""), ST_CHAR_LITERAL("a\0b"), ST_CHAR_LITERAL("a\0"), "a\0B"_stbuf, u8"\u00E9"_stbuf, ST_CHAR_LITERAL("0123456789abcdefg")};
+        const ST::wchar_buffer W[] = {ST_WCHAR_LITERAL(""), ST_WCHAR_LITERAL("a\0b"), ST_WCHAR_LITERAL("a\0"), L"a\0B"_stbuf, L"\u00E9"_stbuf, ST_WCHAR_LITERAL("0123456789abc")};
+        const ST::utf16_buffer U[] = {ST_UTF16_LITERAL(""), ST_UTF16_LITERAL("a\0b"), ST_UTF16_LITERAL("a\0"), u"a\0B"_stbuf, u"\uFFFF"_stbuf, ST_UTF16_LITERAL("0123456789abcdefg")};
+        const ST::utf32_buffer V[] = {ST_UTF32_LITERAL(""), ST_UTF32_LITERAL("a\0b"), ST_UTF32_LITERAL("a\0"), U"a\0B"_stbuf, U"\U0010FFFF"_stbuf, ST_UTF32_LITERAL("0123456789abc")};
+        if (!buffers(C, 0, "char_buffer made by ST_CHAR_LITERAL / _stbuf") || !buffers(W, 1, "wchar_buffer made by ST_WCHAR_LITERAL / _stbuf") ||
+            !buffers(U, 2, "utf16_buffer made by ST_UTF16_LITERAL / _stbuf") || !buffers(V, 3, "utf32_buffer made by ST_UTF32_LITERAL / _stbuf")) return false;
+        r.exhausted.push_back("strings and buffers made by ST_LITERAL, ST_CHAR/WCHAR/UTF16/UTF32_LITERAL and the _st / _stbuf literal operators (NUL inside, bytes >= 0x80, 16+ units): all ordered pairs, every form, pre-states, containers");
+        return true;
+    }
     template <class T> bool huge_table(int type) {
         static const uint32_t A[][3] = {{0, 0, 0}, {'a', 0, 0}, {'a', 'b', 0}, {'A', 'b', 0}, {'a', 0x80, 0}, {'a', 'b', 'c'}};
         static const int AL[] = {0, 1, 2, 2, 2, 3};
@@ -1131,6 +1177,7 @@ long verif_enumerate(int shard, int nshards, int tier, verif::EnumReport &r) {
     EnumCtx e{shard, nshards, r, {}, false};
     // huge lengths first: tiny, and the size arithmetic is where the shipped defect was
     if (!e.huge_table<char>(0) || !e.huge_table<wchar_t>(1) || !e.huge_table<char16_t>(2) || !e.huge_table<char32_t>(3)) return r.evaluations;
+    if (!e.literal_table()) return r.evaluations;
     if (!e.long_table<char>(0) || !e.long_table<wchar_t>(1) || !e.long_table<char16_t>(2) || !e.long_table<char32_t>(3)) return r.evaluations;
     // all pairs of one-byte strings: the whole fold table, signedness of every byte
     {
